@@ -62,6 +62,45 @@ type Upstream struct {
 	closedCh chan struct{}
 	wg       sync.WaitGroup
 	Refuse   int32 // when 1, accepted connections are closed at once
+	goAways  []string // HTTP/2: GOAWAY frames with an error code that the reference server sent (connection errors it raised against the proxy)
+}
+
+// GoAways lists the connection errors the HTTP/2 reference server raised against its peer (GOAWAY frames with an
+// error code other than NO_ERROR), as "conn <id>: <code> <debug data>".
+func (u *Upstream) GoAways() []string {
+	u.mu.Lock()
+	defer u.mu.Unlock()
+	return append([]string(nil), u.goAways...)
+}
+
+// goAwaySniffer watches what the x/net server writes for GOAWAY frames.
+type goAwaySniffer struct {
+	net.Conn
+	u   *Upstream
+	id  int
+	buf []byte
+}
+
+func (g *goAwaySniffer) Write(p []byte) (int, error) {
+	g.buf = append(g.buf, p...)
+	for len(g.buf) >= 9 {
+		l := int(g.buf[0])<<16 | int(g.buf[1])<<8 | int(g.buf[2])
+		if len(g.buf) < 9+l {
+			break
+		}
+		if g.buf[3] == 0x7 && l >= 8 { // GOAWAY
+			code := uint32(g.buf[9+4])<<24 | uint32(g.buf[9+5])<<16 | uint32(g.buf[9+6])<<8 | uint32(g.buf[9+7])
+			if code != 0 {
+				g.u.mu.Lock()
+				if len(g.u.goAways) < 16 {
+					g.u.goAways = append(g.u.goAways, fmt.Sprintf("conn %d: %v %q", g.id, http2.ErrCode(code), g.buf[9+8:9+l]))
+				}
+				g.u.mu.Unlock()
+			}
+		}
+		g.buf = g.buf[9+l:]
+	}
+	return g.Conn.Write(p)
 }
 
 // NewUpstream starts a scripted upstream on a free loopback port.
@@ -307,7 +346,7 @@ func orDefault(v, d int) int {
 
 func (u *Upstream) serveHTTP2(id int, c net.Conn) {
 	srv := &http2.Server{MaxConcurrentStreams: 1000}
-	srv.ServeConn(c, &http2.ServeConnOpts{Handler: http.HandlerFunc(func(w http.ResponseWriter, req *http.Request) {
+	srv.ServeConn(&goAwaySniffer{Conn: c, u: u, id: id}, &http2.ServeConnOpts{Handler: http.HandlerFunc(func(w http.ResponseWriter, req *http.Request) {
 		body, _ := io.ReadAll(req.Body)
 		r := &Req{ConnID: id, Method: req.Method, URI: req.RequestURI, Host: req.Host, Body: body, Token: req.Header.Get(TokenHeader)}
 		for k, vs := range req.Header {
